@@ -92,7 +92,7 @@ func newDriver(cfg mcfg, workdir string) (*driver, error) {
 		Variant:            v,
 		SegmentCount:       cfg.SegCount,
 		SegmentMinDuration: 1 * time.Millisecond,
-		PartMinDuration:    200 * time.Millisecond,
+		PartMinDuration:    400 * time.Millisecond,
 		Tracks:             tracks,
 		OnEncodeError:      func(error) {},
 	}
@@ -115,12 +115,12 @@ func newDriver(cfg mcfg, workdir string) (*driver, error) {
 	return d, nil
 }
 
-// writeFrame writes video frame number d.n (100 ms apart); idr chooses the NALU type.
+// writeFrame writes video frame number d.n (250 ms apart: a part every second frame); idr chooses the NALU type.
 func (d *driver) writeFrame(idr bool) error {
 	j := d.n
 	d.n++
 	if d.at != nil && j >= 1 {
-		err := d.m.WriteMPEG4Audio(d.at, t0.Add(time.Duration(j)*100*time.Millisecond), int64(j)*4410,
+		err := d.m.WriteMPEG4Audio(d.at, t0.Add(time.Duration(j)*250*time.Millisecond), int64(j)*11025,
 			[][]byte{{1, 2, 3, 4}})
 		if err != nil {
 			return err
@@ -133,7 +133,7 @@ func (d *driver) writeFrame(idr bool) error {
 			au = [][]byte{testSPS, {8}, {5}}
 		}
 	}
-	return d.m.WriteH264(d.vt, t0.Add(time.Duration(j)*100*time.Millisecond), int64(j)*9000, au)
+	return d.m.WriteH264(d.vt, t0.Add(time.Duration(j)*250*time.Millisecond), int64(j)*22500, au)
 }
 
 // ---- snapshots ----
